@@ -12,7 +12,7 @@ fn point(kind: i128, a: &[i128]) -> PointIndex {
     }
 }
 
-fn drive<const W: usize, const H: usize, const D: usize, const C: usize>(kind: i128, ops: &[i128]) -> Vec<i128> {
+fn drive<const W: usize, const H: usize, const D: usize, const C: usize>(kind: i128, ops: &[i128], rec: bool) -> Vec<i128> {
     let ty = match kind {
         1 => ArrayType::Array1D,
         2 => ArrayType::Array2D,
@@ -27,10 +27,20 @@ fn drive<const W: usize, const H: usize, const D: usize, const C: usize>(kind: i
         // grid is 4D etc.; PointIndex carries all four fields regardless of its type tag
         let p = point(kind, &ops[i + 1..i + 5]);
         if ops[i] == 0 {
-            g.set(p, ops[i + 5] as i64);
+            if rec {
+                // [gridrec]: every operation on its own; a panicking store answers -998 and the SAME grid is used on
+                let v = ops[i + 5] as i64;
+                if std::panic::catch_unwind(std::panic::AssertUnwindSafe(|| g.set(p, v))).is_err() { out.push(-998); }
+            } else {
+                g.set(p, ops[i + 5] as i64);
+            }
             i += 6;
         } else {
-            out.push(g.get(p) as i128);
+            if rec {
+                out.push(std::panic::catch_unwind(std::panic::AssertUnwindSafe(|| g.get(p) as i128)).unwrap_or(-999));
+            } else {
+                out.push(g.get(p) as i128);
+            }
             i += 5;
         }
     }
@@ -38,19 +48,22 @@ fn drive<const W: usize, const H: usize, const D: usize, const C: usize>(kind: i
 }
 
 macro_rules! shapes {
-    ($kind:expr, $w:expr, $h:expr, $d:expr, $c:expr, $ops:expr; $( ($W:literal,$H:literal,$D:literal,$C:literal) ),* ) => {
+    ($kind:expr, $w:expr, $h:expr, $d:expr, $c:expr, $ops:expr, $rec:expr; $( ($W:literal,$H:literal,$D:literal,$C:literal) ),* ) => {
         match ($w, $h, $d, $c) {
-            $( ($W, $H, $D, $C) => drive::<$W, $H, $D, $C>($kind, $ops), )*
+            $( ($W, $H, $D, $C) => drive::<$W, $H, $D, $C>($kind, $ops, $rec), )*
             _ => vec![-556],
         }
     };
 }
 
-pub fn run(args: &[i128]) -> Vec<i128> {
+pub fn run(args: &[i128]) -> Vec<i128> { run_mode(args, false) }
+pub fn run_rec(args: &[i128]) -> Vec<i128> { run_mode(args, true) }
+
+fn run_mode(args: &[i128], rec: bool) -> Vec<i128> {
     let kind = args[0];
     let (w, h, d, c) = (args[1], args[2], args[3], args[4]);
     let ops = &args[5..];
-    shapes!(kind, w, h, d, c, ops;
+    shapes!(kind, w, h, d, c, ops, rec;
         (1,1,1,1),(1,1,1,2),(1,1,2,1),(1,2,1,1),(2,1,1,1),(1,2,3,1),(3,2,1,1),(1,1,3,2),
         (2,2,2,2),(1,2,3,4),(4,3,2,1),(2,3,1,2),(3,1,2,2),(2,1,3,1),(3,3,1,2),(1,3,2,3),
         (2,3,4,5),(5,4,3,2),(3,5,2,4),(4,2,5,3),(2,2,3,3),(3,3,2,2),(3,2,3,2),(2,3,2,3),
